@@ -277,9 +277,25 @@ func (fr *Frame) frameObligations(ct *Contract, entry *State, r retInfo, ri int,
 			allowedFams[f] = true
 		}
 	}
+	// fields declared `lockprotects` change by interference whenever their lock is taken
+	// (modelled at Lock): they are shared state governed by the lock invariant, not part of any
+	// function's frame
+	lockProtected := map[string]bool{}
+	for key, li := range vc.S.LockInvs {
+		tname := key
+		if i := strings.LastIndex(key, "."); i > 0 {
+			tname = key[:i]
+		}
+		for _, f := range li.Protects {
+			lockProtected["H_"+tname+"."+f] = true
+		}
+	}
 	var fams []string
 	for f := range vc.famSort {
 		if strings.HasPrefix(f, "GV_") {
+			continue
+		}
+		if lockProtected[ghostBase(f)] {
 			continue
 		}
 		if inSet(acc, f) && !inSet(allowedFams, f) {
